@@ -81,6 +81,7 @@ def bfsClips : (fuel : Nat) → List SCtx → DocM (List SCtx)
     let mut kids : List SCtx := []
     for ch in node.children do
       if ch.isLxmlNode && !ch.isRedundant then
+        if ch == Node.entity then fail .valueError
         let t ← liftE (elementTransform ch c.transform)
         let clips ← match ch.getAttr "clip-path" with
           | some v =>
